@@ -1369,6 +1369,8 @@ theorem stepKind_idem (hT : TableOK T) (hf : Inv f) (k : String) (v v1 : JV) (hv
     cases ht : d.template with
     | alias => simp only [ht] at h ⊢; exact hf.idem _ v v1 hv h
     | ref => simp only [ht] at h ⊢
+    | namedMap => simp only [ht] at h ⊢
+    | special => simp only [ht] at h ⊢
     | maplike => simp only [ht] at h ⊢
     | struct =>
       simp only [ht] at h ⊢
@@ -1390,6 +1392,8 @@ theorem stepKind_nn (hT : TableOK T) (hf : Inv f) (k : String) (v v1 : JV)
     cases ht : d.template with
     | alias => simp only [ht] at h; exact hf.nn _ v v1 (valueShape_ne_types T hT k d hd) h hn
     | ref => simp only [ht] at h; cases h; exact hn
+    | namedMap => simp only [ht] at h; cases h; exact hn
+    | special => simp only [ht] at h; cases h; exact hn
     | maplike => simp only [ht] at h; cases h; exact hn
     | struct =>
       simp only [ht] at h
@@ -1411,6 +1415,8 @@ theorem stepKind_noRef (hT : TableOK T) (hf : Inv f) (k : String) (kvs kvs1 : Ob
     cases ht : d.template with
     | alias => simp only [ht] at h; exact hf.noRef _ kvs kvs1 (valueShape_refSafe T hT k d hd) h hr
     | ref => simp only [ht] at h; cases h; exact hr
+    | namedMap => simp only [ht] at h; cases h; exact hr
+    | special => simp only [ht] at h; cases h; exact hr
     | maplike => simp only [ht] at h; cases h; exact hr
     | struct =>
       simp only [ht] at h
@@ -1429,6 +1435,8 @@ theorem stepKind_str (hT : TableOK T) (hf : Inv f) (k : String) (v : JV) (t : St
     cases htm : d.template with
     | alias => simp only [htm] at h; exact hf.strOrigin _ _ t (valueShape_ne_types T hT k d hd) h ht
     | ref => simp only [htm] at h; cases h <;> rfl
+    | namedMap => simp only [htm] at h; cases h <;> rfl
+    | special => simp only [htm] at h; cases h <;> rfl
     | maplike => simp only [htm] at h; cases h <;> rfl
     | struct =>
       simp only [htm] at h
